@@ -8,12 +8,16 @@ C11-r23 C11-r24 C12-r21 C12-r22 C13-r21 C13-r22 C13-r24 C14-r21 C14-r23 C14-r24 
 C01-r31 C02-r32 C03-r32 C03-r34 C16-r34 C06-r32 C06-r33 C11-r33 C14-r34 C18-1 C18-2 C18-4 C20-1 C20-2
 C01-r42 C02-r41 C02-r42 C04-r33 C05-r31 C05-r32 C05-r33 C08-r31 C08-r32 C08-r33 C08-r34 C09-r34 C10-r31 C10-r34 C12-r31 C12-r32 C12-r33 C12-r34 C13-r31 C13-r33 C13-r34
 C16-r42 C16-r43 C07-r33 C15-r33 C20-r21 C16-r41
-C18-r22 C08-r43 C05-r43 C13-r42 C13-r43 C13-r44 C12-r44""".split()
+C18-r22 C08-r43 C05-r43 C13-r42 C13-r43 C13-r44 C12-r44
+C20-r32 C20-r33 C20-r34 C14-r41 C06-r41 C06-r43 C06-r44 C09-r41 C09-r42 C09-r44 C16-r53 C16-r54
+C03-r51 C03-r52 C01-r51 C01-r54 C02-r51 C02-r53 C02-r54""".split()
 LIMITS = {
+ "C09-r44": "a wrong radius inside sdf.RoundedCone: the distance functions are C19's clause (SDF-FORM reports this seed); C09 carries the dependency obligation SDF-REF (marching may only call sdf functions C19 decides)",
+ "C16-r53": "the law of geometry.AABB.EncapsulateBounds is C17's clause (BOX-1 reports this seed); C16's BND-1 takes the box operations as given",
+ "C16-r54": "the narrowing protocol of a consumer of TraverseIntersectingRay (rendering/mesh.go, outside the property's anchors): whether a caller may rely on *max being shared between sibling cells is not a structural clause of the index",
  "C02-r22": "which vertex list an id refers to is not tracked by C02's index-space typing; the same change is reported by C20's DEL-VERT",
  "C02-r33": "storage aliasing of Append's index buffer is C01's clause (OWN-1 reports this seed); C02 judges the mesh returned, not later histories",
  "C16-r33": "which of two algebraically close dot-product tests closes the point-in-triangle predicate is geometry of exact-arithmetic edge cases; numeric, declined",
- "C20-1": "mathematically identical determinant evaluated in absolute coordinates: floating-point conditioning, not a structural clause (C20 assumes real arithmetic); declined with reasons in props/c20/REPORT.md",
  "C03-r43": "the property does not fix how face normals are weighted before they are summed (the code's own comment says normalize); not a structural clause",
  "C02-r44": "an optional attribute attached under a data-dependent flag (len(uvs) > 0 instead of a latched validity flag): the meaning of the flag is not tracked; stated limit of GEN-LEN",
  "C16-2": "IEEE signed-zero behaviour of the slab test is numeric; declined clause",
